@@ -175,6 +175,7 @@ def run(ctx: common.Ctx):
                      {"pps": pps, "chunks": [text], "output": single_cache[key], "expected": ref})
     ctx.sample({"pps": cases[-1][0], "chunks": cases[-1][1], "output": impl_run(*cases[-1])})
     run_files(ctx, drv)
+    run_copy(ctx, drv)
     for p, c in cases[ncorpus + 5000: ncorpus + 5003]:
         ctx.sample({"pps": p, "chunks": c, "output": impl_run(p, c)})
 
@@ -244,6 +245,59 @@ def run_files(ctx, drv):
                          {"pps": pps, "files": files, "index": k, "output": got[k], "alone": alone})
                 break
     ctx.sample({"stream": "files", "pps": seqs[-1][0], "files": chunked[-1], "outputs": impl_files(seqs[-1][0], chunked[-1], scratch)})
+
+
+def impl_copy(pps, text, scratch, dirty):
+    """The real `SupportGenerator._copy_header_using_line_pps` on a raw (non-template) resource file."""
+    import nunavut._postprocessors as npp
+    from nunavut.jinja import SupportGenerator
+    objs = [npp.TrimTrailingWhitespace() if p == "T" else npp.LimitEmptyLines(int(p[1:])) for p in pps]
+    if dirty:  # state left behind by an earlier file of the run
+        for o in objs:
+            if hasattr(o, "_empty_line_count"):
+                o._empty_line_count = 7
+    src, dst = scratch / "res.h", scratch / "dst.h"
+    with open(src, "w", encoding="utf-8", newline="") as fh:
+        fh.write(text)
+    if dst.exists():
+        dst.unlink()
+    SupportGenerator._copy_header_using_line_pps(object.__new__(SupportGenerator), src, dst, objs)
+    with open(dst, "r", encoding="utf-8", newline="") as fh:
+        return fh.read()
+
+
+def run_copy(ctx, drv):
+    """Copy stream: a raw support file copied through line processors = the processors applied line by line to its text."""
+    rng = ctx.rng
+    scratch = ctx.scratch / "copy"
+    scratch.mkdir(exist_ok=True)
+    texts = []
+    maxlen = 3 if ctx.quick else 4
+    for L in range(0, maxlen + 1):
+        for tup in itertools.product(ALPHABET + ["\x0c", "\x85"], repeat=L):
+            texts.append("".join(tup))
+    for _ in range(200 if ctx.quick else 3000):
+        texts.append("".join(rng.choices(ALPHABET + ["b", "\x0b", "\x0c", "\x1c", "\x85", "\u2029"], k=rng.randint(4, 30))))
+    reqs, cases = [], []
+    for t in texts:
+        pps = rng.choice([p for p in PPS if p])
+        cases.append((pps, t))
+        reqs.append("files " + ",".join(pps) + " " + enc(t))
+    model = drv.ask(reqs) if drv is not None else [None] * len(reqs)
+    for (pps, t), m in zip(cases, model):
+        got = impl_copy(pps, t, scratch, dirty=True)
+        ctx.case(("copy", tuple(pps), t), True)
+        ctx.count("copied_raw_files")
+        if m is not None:
+            ctx.traces += 1
+            if dec(m) != got:
+                ctx.disagree("linebuf-copy", {"pps": pps, "text": t}, dec(m), got)
+        ref = reference(pps, t)
+        if got != ref:
+            ctx.fail({"kind": "copy-not-linewise"},
+                     "a raw support file copied through line processors is not the processors applied line by line to its text",
+                     {"pps": pps, "text": t, "output": got, "expected": ref})
+    ctx.sample({"stream": "copy", "pps": cases[-1][0], "text": cases[-1][1], "output": impl_copy(cases[-1][0], cases[-1][1], scratch, True)})
 
 
 def replay(ctx, path):
